@@ -461,12 +461,12 @@ def layout (S : List Ty) : Option Layout :=
 /-- The opcode a type writes at its own index (`none` = `KeyError` in `_typesdict`). -/
 def ownWord (idx : Ty → Option Nat) : Ty → Option Int
   | .prim p => some (opWord Py.OP_PRIMITIVE p)
-  | .ptr _ t => (idx t).map fun i => opWord Py.OP_POINTER i
-  | .array t _ => (idx t).map fun i => opWord Py.OP_ARRAY i
-  | .openArray t => (idx t).map fun i => opWord Py.OP_OPEN_ARRAY i
+  | .ptr _ t => (idx t).map fun (i : Nat) => opWord Py.OP_POINTER (i : Int)
+  | .array t _ => (idx t).map fun (i : Nat) => opWord Py.OP_ARRAY (i : Int)
+  | .openArray t => (idx t).map fun (i : Nat) => opWord Py.OP_OPEN_ARRAY (i : Int)
   | .su i => some (opWord Py.OP_STRUCT_UNION i)
   | .enum i => some (opWord Py.OP_ENUM i)
-  | .func r _ _ => (idx r).map fun i => opWord Py.OP_FUNCTION i
+  | .func r _ _ => (idx r).map fun (i : Nat) => opWord Py.OP_FUNCTION (i : Int)
 
 /-- What ends up in slot `j`.  A type placeholder at the type's own index holds the type's
 opcode; elsewhere it is an argument slot of a function whose argument lives at another index:
@@ -647,5 +647,23 @@ def Ty.children : Ty → List Ty
 
 /-- `_typesdict` is closed under "refers to". -/
 def Closed (S : List Ty) : Prop := ∀ T ∈ S, ∀ c ∈ T.children, c ∈ S
+
+/-! ## bounds used by the record theorems -/
+
+def InRange32 (n : Int) : Prop := -2^31 ≤ n ∧ n < 2^31
+
+/-- Bounds of a field record: what `as_field_python_expr` accepts and the 4-byte fields can hold. -/
+def FieldOk (f : FieldRec) : Prop :=
+  -2^23 ≤ f.arg ∧ f.arg < 2^23 ∧ NoNul f.name ∧
+  ((f.op = Py.OP_NOOP ∧ f.bits = -1) ∨ (f.op = Py.OP_BITFIELD ∧ InRange32 f.bits))
+
+def isOpaqueFlags (fl : Int) : Bool := testFlag fl C.F_OPAQUE || testFlag fl C.F_EXTERNAL
+
+def StructOk (s : StructRec) : Prop :=
+  InRange32 s.typeIndex ∧ InRange32 s.flags ∧ NoNul s.name ∧ (∀ f ∈ s.fields, FieldOk f) ∧
+  (isOpaqueFlags s.flags = true → s.fields = [])
+
+def EnumNameOk (x : Bytes) : Prop := x ≠ [] ∧ (44 : UInt8) ∉ x ∧ NoNul x
+
 
 end CffiVerif.Opcode
